@@ -1,2 +1,4 @@
 //! Independent reference model written from the RFC 9420 text (shares no code with /repo).
+pub mod tls;
+pub mod tree;
 pub mod treemath;
